@@ -31,7 +31,7 @@ struct TcpPair
 	bool connected = false, accepted = false;
 	int overload = 0; ip::tcp::endpoint peer_ep;
 	OpPtr cop, aop;
-	int base_obj = 0; int pi = 0;
+	int base_obj = 0; int pi = 0; bool on_cd = false;
 };
 
 struct UdpEnd
@@ -67,6 +67,7 @@ struct Scn
 	int bystander_pair = -1; int bystander_udp_rx = -1, bystander_udp_tx = -1; int bystander_sent = 0;
 	bool after_intervention = false;
 	bool idle_reads = false;
+	int variant = 0; // which flavour of an intervention to use (derived from the boundary index)
 
 	Scn(Args const& a_, int id_) : a(a_), id(id_), rng(hcomb(0x0B5, std::uint64_t(id_))) {}
 
@@ -100,6 +101,36 @@ struct Scn
 		t->async_wait([fn](error_code const& ec) { if (!ec) fn(); });
 	}
 
+	// posts an accept of the given overload on the pair's acceptor. The peer-endpoint out-parameter of
+	// overload 1 lives in its own heap block that is freed as soon as that accept has completed (however):
+	// the library must not write through it afterwards.
+	void post_accept(TcpPair* pp, int overload, bool cannot_complete)
+	{
+		if (!pp->acc) return;
+		pp->aop = ops.make("tcp.accept", pp->pi * 10 + 2, cannot_complete);
+		auto h = [this, pp](error_code const& e) {
+			if (e) return;
+			pp->accepted = true;
+			if (pp->ss) { error_code e2; API(pp->ss->non_blocking(true, e2)); pp->s.sock = pp->ss.get(); pp->s.start_read(); pp->s.start_write(); }
+		};
+		if (overload != 2 && !pp->ss) pp->ss.reset(new ip::tcp::socket(pp->on_cd ? *nd : *nb));
+		if (overload == 0) API(pp->acc->async_accept(*pp->ss, track1(pp->aop, h)));
+		else if (overload == 1)
+		{
+			std::shared_ptr<std::unique_ptr<ip::tcp::endpoint>> ep = std::make_shared<std::unique_ptr<ip::tcp::endpoint>>(new ip::tcp::endpoint());
+			API(pp->acc->async_accept(*pp->ss, **ep, track1(pp->aop, [h, ep](error_code const& e) { ep->reset(); h(e); })));
+		}
+		else
+		{
+			OpPtr rec = pp->aop;
+			API(pp->acc->async_accept([this, pp, rec, h](error_code const& e, ip::tcp::socket peer) mutable {
+				on_invoke(*rec, e, 0);
+				if (!e) { pp->ss.reset(new ip::tcp::socket(std::move(peer))); }
+				h(e);
+			}));
+		}
+	}
+
 	// ---------------------------------------------------------- TCP pair
 	TcpPair& add_pair(std::uint16_t port, int overload, std::uint64_t c2s, std::uint64_t s2c, bool target, std::int64_t connect_delay_ns = 0, bool accept_posted = true, bool on_cd = false)
 	{
@@ -107,7 +138,7 @@ struct Scn
 		pairs.emplace_back(new TcpPair());
 		TcpPair& p = *pairs.back();
 		int const pi = int(pairs.size()) - 1;
-		p.overload = overload; p.pi = pi;
+		p.overload = overload; p.pi = pi; p.on_cd = on_cd;
 		p.acc.reset(new ip::tcp::acceptor(srv_ios));
 		error_code ec;
 		API(p.acc->open(ip::tcp::v4(), ec)); API(p.acc->bind(ip::tcp::endpoint(srv_addr, port), ec)); API(p.acc->listen(5, ec));
@@ -128,26 +159,7 @@ struct Scn
 		}
 		p.c.goal = c2s; p.s.goal = s2c;
 		TcpPair* pp = &p;
-		auto do_accept = [this, pp]() {
-			if (!pp->acc) return;
-			pp->aop = ops.make("tcp.accept", pp->pi * 10 + 2, false);
-			auto h = [this, pp](error_code const& e) {
-				if (e) return;
-				pp->accepted = true;
-				if (pp->ss) { error_code e2; API(pp->ss->non_blocking(true, e2)); pp->s.sock = pp->ss.get(); pp->s.start_read(); pp->s.start_write(); }
-			};
-			if (pp->overload == 0) API(pp->acc->async_accept(*pp->ss, track1(pp->aop, h)));
-			else if (pp->overload == 1) API(pp->acc->async_accept(*pp->ss, pp->peer_ep, track1(pp->aop, h)));
-			else
-			{
-				OpPtr rec = pp->aop;
-				API(pp->acc->async_accept([this, pp, rec, h](error_code const& e, ip::tcp::socket peer) mutable {
-					on_invoke(*rec, e, 0);
-					if (!e) { pp->ss.reset(new ip::tcp::socket(std::move(peer))); }
-					h(e);
-				}));
-			}
-		};
+		auto do_accept = [this, pp]() { post_accept(pp, pp->overload, false); };
 		auto do_connect = [this, pp, port, srv_addr]() {
 			if (!pp->cs) return;
 			pp->cop = ops.make("tcp.connect", pp->pi * 10, false);
@@ -244,24 +256,12 @@ struct Scn
 				case IV_DESTROY: API(pp->acc.reset()); break;
 				case IV_SUPERSEDE:
 				{
-					// same kind of accept again (a different overload every other time)
+					// another accept while one is outstanding -- of a different overload, and in half of the
+					// cases after an explicit cancel() (cancel, then accept again in the same breath)
 					OpPtr old = pp->aop;
-					pp->aop = ops.make("tcp.accept", pp->pi * 10 + 2, old ? old->cannot_complete : false);
-					auto h = [this, pp](error_code const& e) {
-						if (e) return;
-						pp->accepted = true;
-						if (pp->ss) { error_code e2; API(pp->ss->non_blocking(true, e2)); pp->s.sock = pp->ss.get(); pp->s.start_read(); pp->s.start_write(); }
-					};
-					if (pp->overload == 2)
-					{
-						OpPtr rec = pp->aop;
-						API(pp->acc->async_accept([this, pp, rec, h](error_code const& e, ip::tcp::socket peer) mutable {
-							on_invoke(*rec, e, 0);
-							if (!e) pp->ss.reset(new ip::tcp::socket(std::move(peer)));
-							h(e);
-						}));
-					}
-					else API(pp->acc->async_accept(*pp->ss, track1(pp->aop, h)));
+					bool const cc = old ? old->cannot_complete : false;
+					if (variant & 1) { error_code e; API(pp->acc->cancel(e)); }
+					post_accept(pp, (pp->overload + 1 + ((variant >> 1) & 1)) % 3, cc);
 					break;
 				}
 				default: break;
@@ -476,7 +476,7 @@ struct Scn
 			case 2: desc = "tcp pair, accept(peer, endpoint), idle: both ends only have reads pending"; start_sim(); idle_reads = true; add_pair(4000, 1, 0, 0, true); idle_reads = false; add_bystanders(); break;
 			case 3: desc = "tcp pair, socket-returning accept, client writes 200 kB (blocks on the window), server reads slowly"; net.def_net = {slowq}; start_sim();
 				{ TcpPair& p = add_pair(4000, 2, 200000, 0, true); p.c.wpat = 3; p.s.rpat = 2; } add_bystanders(); break;
-			case 4: desc = "accept(peer) waiting, client arrives 20 ms later"; start_sim(); add_pair(4000, 0, 5000, 5000, true, 20000000); add_bystanders(); break;
+			case 4: desc = "accept(peer, endpoint) waiting, client arrives 20 ms later"; start_sim(); add_pair(4000, 1, 5000, 5000, true, 20000000); add_bystanders(); break;
 			case 5: desc = "socket-returning accept waiting, client never arrives"; start_sim(); add_pair(4000, 2, 0, 0, true, -1); add_bystanders(); break;
 			case 6: desc = "accept(peer, endpoint) waiting, client never arrives; connect to a port nobody listens on"; start_sim(); add_pair(4000, 1, 0, 0, true, -1); add_refused_connect(true); add_bystanders(); break;
 			case 7: desc = "client connects first, accept posted 30 ms later"; start_sim(); add_pair(4000, 0, 3000, 3000, true, 0, false); add_bystanders(); break;
@@ -602,6 +602,7 @@ void run_case(Args const& a, std::uint64_t c)
 	r.cur_desc = fmt("scenario %d (%s); at boundary %" PRIu64 " of %" PRIu64 ": %s", s, sc.desc.c_str(), k, pi.K[std::size_t(s)], iv_name[iv])
 		+ (obj >= 0 ? " " + sc.objs[std::size_t(obj)].name : std::string(" from the next tracked handler"));
 	bool applied = false, inapplicable = false;
+	sc.variant = int(kb % 4);
 	std::size_t ops_before = 0;
 	auto intervene = [&]() {
 		if (applied || inapplicable) return;
